@@ -21,7 +21,7 @@ CHECKS = {
     "C14": dict(
         engine="VSE",
         technique="exhaustive enumeration of union sites x alternatives x bounded shapes, each embedded in its owner root and structured by the real converter",
-        text="All union occurrences of the metamodel (declared or-types and references to or-aliases) x every alternative x {cost<=k neighbourhood, maximal value, ordered pairs for arrays, arrays of 101 and 1025 elements, members in reversed and rotated order, key-name and look-alike strings ("42", "007", "true", "[1, 2]" ...) at string alternatives}; each must structure without error into an instance of an alternative valid for the value; a (site, alternative) without execution fails as vacuous.",
+        text="All union occurrences of the metamodel (declared or-types and references to or-aliases) x every alternative x {cost<=k neighbourhood, maximal value, ordered pairs for arrays, arrays of 101 and 1025 elements, members in reversed and rotated order, key-name and look-alike strings ('42', '007', 'true', '[1, 2]' ...) at string alternatives}; each must structure without error into an instance of an alternative valid for the value; a (site, alternative) without execution fails as vacuous.",
         note="Trusted: MM; unions of partialResult/registrationOptions/errorData have no generated class to structure into and are listed in the evidence.",
         ref="3/C14"),
     "C02": dict(
